@@ -225,6 +225,13 @@ def build(body: Body, alpha: Alphabet, fx=None, depth=0, _prefix=(), _sinks=None
                 n.add(cur, "retval:residual", mid, loc)
                 cur = mid
                 pos += 1
+            after_ev = None
+            if retval and t["dest"] == [0] and not (t.get("callee") or "").endswith("FromResidual::from_residual"):
+                # the function's result is this call's result: name the labelled call it stands for (itself, or — through
+                # adapters that keep the Ok / Err outcome — the call whose result it converts)
+                srcs = {lab} if lab else ((_src_labels(body, body.origins(t["args"][0]), alpha) if (t.get("callee") in OUTCOME_PRESERVING and t["args"]) else set()))
+                if len(srcs) == 1:
+                    after_ev = "retval:call@" + next(iter(srcs))
             spliced = False
             if ev is None and fx is not None and depth > 0 and t["target"] is not None:
                 cal = _local_sync_callee(fx, t)
@@ -236,7 +243,12 @@ def build(body: Body, alpha: Alphabet, fx=None, depth=0, _prefix=(), _sinks=None
                         n.add(cur, None, (sub, 0, 0), loc)
                         spliced = True
             if not spliced and t["target"] is not None:
-                n.add(cur, ev, tgt(t["target"]), loc)
+                if after_ev:
+                    mid = node(bi, pos + 1)
+                    n.add(cur, ev, mid, loc)
+                    n.add(mid, after_ev, tgt(t["target"]), loc)
+                else:
+                    n.add(cur, ev, tgt(t["target"]), loc)
             if t["unwind"] is not None:
                 n.add(cur, "unwind", unwind_s, loc)
         elif k == "switch":
